@@ -7,6 +7,7 @@
    [op_wf] / [st_inv] only exclude arithmetic beyond 2^64 (buffers and vectors longer than the
    address space, cursor positions not fitting u64); every content, length and position is covered. *)
 From VM Require Import Prelude.MachInt Prelude.Outcome Prelude.C1314List Impl.Io Impl.Std Impl.IoGuest Spec.C13 Suite.C13 Proofs.C13.
+From VM Require Import Spec.C13fd Suite.C13fd Proofs.C13fd.
 
 (* the model satisfies the executable checker on every well-formed history (any length) *)
 Theorem C13_model_ok : forall c, wf13 c -> ok_C13 c (run_C13 c) = true.
@@ -165,3 +166,96 @@ Print Assumptions C13_default_read_exact_eq_std.
 Print Assumptions C13_default_write_all_eq_std.
 Print Assumptions C13_msgq_read_exact_pieces.
 Print Assumptions C13_slice_route_same.
+
+(* ---------------------------------------------------------------------------------------------
+   SCRIPTED REAL DESCRIPTORS (suite C13fd).  The OS oracle of the raw-fd adapters is instantiated with a
+   descriptor whose read(2) / write(2) calls follow a script of per-call behaviours of ANY length
+   (Impl/Io.v [fbeh]: FFull | FShort k | FZero | FEintr | FErr, the real call once the script is over;
+   [scr_read] / [scr_write] on top of the file / byte-queue oracle; harness/src/fdscript.rs makes a real
+   descriptor behave like that).  [sfd0 st sc] is the descriptor in state st with script sc and call counter 0;
+   [vm_step_scr] / [vm_step_route] one adapter operation (directly / through VolatileSlice::*_from / *_to(0, fd, len)),
+   [std_step_scr] the documented std operation (single read / write: one call, EINTR and errors passed on;
+   read_exact / write_all: the provided loops) on the same scripted descriptor. *)
+
+(* the model satisfies the executable checker on every well-formed history (any number of operations, every
+   operation with its own script of any length), for both routes *)
+Theorem C13fd_model_ok : forall route c, wf13fd route c -> ok_C13fd c (map fst (run_C13fd route c)) = true.
+Proof. exact C13fd_model_ok_lemma. Qed.
+
+(* the scripted oracle never hands out more than it was asked for - the only hypothesis of the oracle-generic
+   theorems C13_default_read_exact_eq_std / C13_default_write_all_eq_std, which therefore apply to it *)
+Theorem C13_scripted_oracle_bounded : forall k,
+  (forall f len f' bs, scr_read (os_read_of k) f len = (f', OsData bs) -> nlen bs <= len)
+  /\ (forall f d f' n, scr_write (os_write_of k) f d = (f', OsCount n) -> n <= nlen d).
+Proof. exact scr_oracle_bounded_lemma. Qed.
+
+(* read_exact_volatile over a scripted descriptor, script of ANY length: std's provided read_exact terminates
+   (fuel = buffer length + script length + 2), the adapter returns the same result, on success the same stream
+   state and the same buffer, after a failure std's state is unspecified; Interrupted is NEVER the result *)
+Theorem C13_scripted_read_exact_eq_std : forall k st sc b, buf_ok b ->
+  exists of out r f' b',
+    std_fd_read_exact (scr_read (os_read_of k)) (std_fuel (nlen b) sc) (sfd0 st sc) (nlen b) [] = Val (of, out, r)
+    /\ read_exact_volatile (fuel_scr b sc) (read_volatile_raw_fd (scr_read (os_read_of k))) (sfd0 st sc) (arena b) (win b)
+       = Val ((f', arena b'), r)
+    /\ nlen b' = nlen b /\ (r = Ok tt -> of = Some f' /\ out = b') /\ (r <> Ok tt -> of = None)
+    /\ r <> Err (VIo EInterrupted).
+Proof. exact scripted_read_exact_eq_std_lemma. Qed.
+
+Theorem C13_scripted_write_all_eq_std : forall k st sc d, buf_ok d ->
+  exists of r f',
+    std_fd_write_all (scr_write (os_write_of k)) (std_fuel (nlen d) sc) (sfd0 st sc) d = Val (of, r)
+    /\ write_all_volatile (fuel_scr d sc) (write_volatile_raw_fd (scr_write (os_write_of k))) (sfd0 st sc) (arena d) (win d)
+       = Val ((f', arena d), r)
+    /\ (r = Ok tt -> of = Some f') /\ (r <> Ok tt -> of = None)
+    /\ r <> Err (VIo EInterrupted).
+Proof. exact scripted_write_all_eq_std_lemma. Qed.
+
+(* a hard error is reported: j interruptions (retried) followed by an error end both exact forms on a non-empty
+   buffer after exactly j+1 calls with Err(other), the stream and the buffer untouched, the rest of the script unused *)
+Theorem C13_scripted_hard_error_reported : forall k st j rest b, b <> [] -> buf_ok b ->
+  read_exact_volatile (fuel_scr b (repeat FEintr j ++ FErr :: rest)) (read_volatile_raw_fd (scr_read (os_read_of k)))
+    (sfd0 st (repeat FEintr j ++ FErr :: rest)) (arena b) (win b)
+  = Val (({| f_st := st; f_script := rest; f_calls := N.of_nat j + 1 |}, arena b), Err (VIo EOther))
+  /\ write_all_volatile (fuel_scr b (repeat FEintr j ++ FErr :: rest)) (write_volatile_raw_fd (scr_write (os_write_of k)))
+       (sfd0 st (repeat FEintr j ++ FErr :: rest)) (arena b) (win b)
+     = Val (({| f_st := st; f_script := rest; f_calls := N.of_nat j + 1 |}, arena b), Err (VIo EOther)).
+Proof. exact scripted_hard_error_reported_lemma. Qed.
+
+(* stream kinds 13..15 reach the descriptor through VolatileSlice::{read_volatile_from, read_exact_volatile_from,
+   write_volatile_to, write_all_volatile_to}(0, fd, len): the same computation as the direct call, provided the script
+   of an up-to operation does not START with EINTR (the up-to forms of that route retry it: C14's subject) *)
+Theorem C13fd_slice_route_same : forall md k f o, route_ok true (o, f_script f) = true -> buf_ok (op_buf o) ->
+  vm_step_route md k f o = vm_step_scr md k f o.
+Proof. exact route_same_scr_lemma. Qed.
+
+(* non-vacuity: a regular file holding 10 bytes.  An exact read of 6 bytes under [EINTR; short 2; EINTR; EINTR; short 1]
+   is assembled from 2 + 1 + 3 bytes in 6 calls; write_all of 4 bytes under [short 1; EINTR; zero] reports WriteZero after
+   one byte went out (3 calls); a single read under [EINTR] reports Interrupted, as std's read does; an exact read under
+   [EINTR; hard error] reports the error after 2 calls and leaves buffer and offset alone *)
+Example C13fd_nonvacuous :
+  let c := {| d_mode := Debug; d_kind := KFile;
+              d_init := {| s_data := [1;2;3;4;5;6;7;8;9;10]; s_pos := 1; s_out := [] |};
+              d_ops := [(OReadExact [0;0;0;0;0;0], [FEintr; FShort 2; FEintr; FEintr; FShort 1]);
+                        (OWriteAll [21;22;23;24], [FShort 1; FEintr; FZero]);
+                        (ORead [0;0], [FEintr]);
+                        (OReadExact [0;0;0], [FEintr; FErr; FFull])] |} in
+  wf13fd false c /\ ok_C13fd c (map fst (run_C13fd false c)) = true
+  /\ map (fun x => a_rc (fst x)) (run_C13fd false c) = [(1,0); (3,0); (4,0); (5,0)]
+  /\ map snd (run_C13fd false c) = [6; 3; 1; 2]
+  /\ map (fun x => a_buf (fst x)) (run_C13fd false c) = [[2;3;4;5;6;7]; [21;22;23;24]; [0;0]; [0;0;0]]
+  /\ map (fun x => a_pos (fst x)) (run_C13fd false c) = [7; 8; 8; 8]
+  /\ map (fun x => a_data (fst x)) (run_C13fd false c)
+     = [[1;2;3;4;5;6;7;8;9;10]; [1;2;3;4;5;6;7;21;9;10]; [1;2;3;4;5;6;7;21;9;10]; [1;2;3;4;5;6;7;21;9;10]].
+Proof.
+  split.
+  - split; [reflexivity|]. split; [reflexivity|]. split; [|discriminate].
+    repeat constructor; cbn; unfold buf_ok; cbn; rewrite ?W64_val; try reflexivity; lia.
+  - vm_compute. repeat split.
+Qed.
+
+Print Assumptions C13fd_model_ok.
+Print Assumptions C13_scripted_oracle_bounded.
+Print Assumptions C13_scripted_read_exact_eq_std.
+Print Assumptions C13_scripted_write_all_eq_std.
+Print Assumptions C13_scripted_hard_error_reported.
+Print Assumptions C13fd_slice_route_same.
